@@ -54,7 +54,10 @@ theorem cum_insertDelta (acc : Int) (l : List Entry) (d : Int) (c : Call) :
     unfold insertDelta
     -- tie: the generated comparison of the insertion loop is `(*copp)->delta >= delay`
     have tie_insertBefore : NV.Gen.C10.insertBefore x.delta d = decide (x.delta ≥ d) := rfl
-    rw [tie_insertBefore]
+    -- ... and the two delta updates are `(*copp)->delta -= delay` and `delay -= (*copp)->delta`
+    have tie_insertSplit : NV.Gen.C10.insertSplit x.delta d = x.delta - d := rfl
+    have tie_insertWalk : NV.Gen.C10.insertWalk d x.delta = d - x.delta := rfl
+    rw [tie_insertBefore, tie_insertSplit, tie_insertWalk]
     by_cases h : x.delta ≥ d
     · have h' : acc + x.delta ≥ acc + d := by omega
       simp only [h, decide_true, ite_true, cum_cons, insC, h']
@@ -75,6 +78,9 @@ theorem cum_removeFirst (p : Call → Bool) (l : List Entry) (acc : Int) :
   | nil => simp [removeFirst, eraseFirstC]
   | cons x xs ih =>
     unfold removeFirst
+    -- tie: the generated successor update is `cop->next->delta += cop->delta`
+    have tie_unlinkDelta : ∀ a b : Int, NV.Gen.C10.unlinkDelta a b = a + b := fun _ _ => rfl
+    simp only [tie_unlinkDelta]
     by_cases h : p x.c
     · simp only [h, ite_true, cum_cons, eraseFirstC, Option.map_some]
       cases xs with
@@ -120,6 +126,8 @@ theorem cum_removeAllList (p : Call → Bool) (l : List Entry) (acc : Int) :
     | nil => simp [removeAllList]
     | cons x xs =>
       unfold removeAllList
+      have tie_unlinkDelta : ∀ a b : Int, NV.Gen.C10.unlinkDelta a b = a + b := fun _ _ => rfl
+      simp only [tie_unlinkDelta]
       by_cases h : p x.c
       · simp only [h, ite_true, cum_cons]
         cases xs with
